@@ -51,10 +51,13 @@ TableSecs == {"mechanic", "reporting"}
 TableKeys == {"team.repository.dir", "car.names", "team.default.repository"}
 
 \* ---- sim: wide alphabets for -simulate (behaviours executed on the real code)
-SCfgAdds == Adds(0..5, Secs3, Keys3, {A, B, NoneV, IntV("7"), Str("")})
-SBaseAdds == Adds(0..5, Secs3 \cup {"system", "tracks"}, Keys3, {B, NoneV, [t |-> "bool", v |-> "True"]})
-SFileEdits == Edits(Secs3 \cup {"system"}, Keys3, {<<Lit("a")>>, <<>>, <<Dir, Lit("/d")>>, <<Lit("p"), Esc, Lit("q"), Pct>>, <<Unk("foo")>>, <<Lit("39200")>>}) \cup VersionEdits
+SCfgAdds == Adds(0..5, Secs2, Keys2, {A, NoneV}) \cup Adds({2, 4}, {"node"}, {"root.dir"}, {IntV("7"), Str("")})
+SBaseAdds == Adds({0, 2, 5}, {"reporting", "mechanic", "system"}, {"datastore.type"}, {B, NoneV})
+             \cup Adds({1}, {"node", "tracks"}, {"root.dir"}, {[t |-> "bool", v |-> "True"]})
+SFileEdits == Edits({"reporting", "node"}, {"datastore.type", "root.dir"}, {<<Lit("a")>>, <<>>, <<Dir, Lit("/d")>>, <<Lit("p"), Esc, Lit("q"), Pct>>})
+              \cup Edits({"system"}, {"datastore.type"}, {<<Unk("foo")>>, <<Lit("39200")>>}) \cup VersionEdits
 SStores == {StoreA, StoreB, StoreC}
+SInitFiles == {NoFiles(Names2)}
 SAddl == {<<>>, <<"mechanic">>, <<"node", "mechanic">>, <<"nosuch">>}
 
 \* ---- the named deviations are real: TLC finds a witness for each of them in a tiny universe
